@@ -28,12 +28,21 @@ CHECKS = {
          "than 32768 symbols so that the tree is rebuilt repeatedly, and a ramp distribution that drives the number of distinct node "
          "frequencies (lhasa's frequency groups) beyond 314 of the 627 possible. TLC replays every stream through the reference and requires "
          "every decoded command (chunk) of the C decoder to equal the reference's and the LZ77 expansion of the commands - any "
-         "divergence of the adaptive tree shows as a wrong symbol. Grounded on the corpus' -lh1- members.",
+         "divergence of the adaptive tree shows as a wrong symbol. Grounded on the corpus' -lh1- members. Codec_Lh1Groups.tla transcribes "
+         "lhasa's own structure (nodes, groups, group leaders, the group free list) function by function with the alphabet size and the "
+         "reorder limit as parameters; MC_Codec_Lh1Lock explores, for alphabets of 2..16 symbols, every symbol sequence (quick: depth-"
+         "bounded; thorough: the full reachable set of (reference, lhasa) state pairs, 3.4 M states) and checks node-for-node equality "
+         "with the reference, equal codes, the group invariants (a group = a run of equal frequencies, leaders, allocator) and that no "
+         "array index leaves its array. The transcription is bound to the code by lh1groups_drv, which #includes the current "
+         "lib/lh1_decoder.c (also rebuilt with small NUM_CODES / TREE_REORDER_LIMIT), logs every code the real read_code consumes "
+         "and dumps the struct; Trace_Lh1Groups requires field-for-field equality (stale entries included) at every dump.",
     design_ref="DESIGN.md section 5, C02",
-    note="No bounded lock-step model of lhasa's group structure against the reference at small alphabet sizes was built; the lock-step "
-         "is checked on full-scale executions only.",
+    note="The bounded lock-step model covers alphabets of 2..16 symbols (all sequence lengths for seven instances in the thorough tier); at "
+         "the real size (314 symbols, limit 32768) the lock-step is checked on executions: every code read by the real read_code, and the "
+         "real struct at dumps, against both the group transcription and the LZHUF reference.",
     technique="TLA+ transcription of the LZHUF reference used by TLC to validate every decoded command of the real decoder; three-way "
-              "agreement with an independent LZHUF encoder"),
+              "agreement with an independent LZHUF encoder; bounded lock-step model of lhasa's frequency-group structure against the "
+              "reference, bound to the compiled code by struct dumps validated by TLC"),
  "C03": dict(
     category="model_checking",
     text="Codec_Lzs/Lz5/Null.tla define the LArc formats declaratively (flags, absolute ring positions, the LArc initial fill pattern by "
